@@ -383,9 +383,10 @@ def parse_file(path, crate):
                 cur.locals = {k: t for k, t in cur.args}
                 cur.blocks = {}; blk = None; body_lines = [line]
                 continue
-            m = re.match(r"(?:const|static(?: mut)?) (.+?): (.+) = \{$", line)
-            if m:
-                cur = Fn(); cur.name = m.group(1); cur.ret = m.group(2); cur.args = []; cur.crate = crate; cur.is_const = True
+            m = re.match(r"(?:const|static(?: mut)?) (.+) = \{$", line)
+            nt = _split_name_type(m.group(1)) if m else None
+            if nt:
+                cur = Fn(); cur.name = nt[0]; cur.ret = nt[1]; cur.args = []; cur.crate = crate; cur.is_const = True
                 cur.locals = {}; cur.blocks = {}; blk = None; body_lines = [line]
                 continue
             continue
@@ -412,6 +413,17 @@ def parse_file(path, crate):
             s += " " + nxt
         blk.append(s[:-1])
     return fns
+
+
+def _split_name_type(t):
+    """'NAME: TYPE' where NAME may contain '<impl at a.rs:1:2: 3:4>' -> (NAME, TYPE)"""
+    d = 0
+    for i, c in enumerate(t):
+        if c == "<": d += 1
+        elif c == ">" and t[i - 1] not in "-=": d -= 1
+        elif c == ":" and d == 0 and t[i + 1:i + 2] == " " and t[i - 1] != ":":
+            return t[:i], t[i + 2:]
+    return None
 
 
 def const_table(path):
